@@ -1,87 +1,324 @@
+// C10 — replies reach only their own client and carry only their own bytes.
+//
+// The entry binary is race-instrumented and runs nothing itself: every phase
+// is this binary re-executed as a child with GORACE=log_path (reports are
+// logged, not fatal); the parent merges the children's counters / violations
+// and scans the race logs.
+//
+//	rounds    N rounds, each a fresh Stack with real UDP/TCP/DoT/DoH/DoQ
+//	          listeners, tiny ingress bounds and its own GOMAXPROCS, driven by
+//	          a few hundred concurrent client endpoints (round.go, clients.go)
+//	          judged per unit by the provenance oracle (oracle.go)
+//	portable  one such round in which, half way, a seccomp filter makes
+//	          recvmmsg fail with ENOSYS so every UDP socket falls back to the
+//	          portable reader while slabs armed by the batch reader are reused
+//	resolver  the full production chain on a scripted authoritative universe:
+//	          concurrent clients whose resolutions share upstream lookups
+//	          (resolver.go)
+//	asan      (thorough) the rounds phase in the -asan build
 package main
 
 import (
+	"encoding/hex"
+	"encoding/json"
 	"fmt"
 	"os"
 	"runtime"
-	"runtime/debug"
+	"strings"
+	"sync"
 	"time"
 	"unsafe"
 
-	"github.com/miekg/dns"
 	"golang.org/x/sys/unix"
 
-	"github.com/semihalev/sdns/server"
-	"github.com/semihalev/sdns/zzverif/stack"
+	"github.com/semihalev/sdns/zzverif/vlib"
 )
 
+const rule = "evaluations = units received by client endpoints (UDP datagrams, TCP/DoT frames, HTTP bodies, QUIC stream payloads) and judged by the provenance oracle, plus resolver-phase replies; distinct_nontrivial = (round, transport, query kind) triples for which at least one reply was matched to its query while the engine counters of that round show overflow/handoff/inline activity"
+
+func main() {
+	r := vlib.Start("C10", "exploration")
+	if rc := r.ReplayCase(); rc != nil {
+		replay(r, rc)
+		r.Finish(rule)
+	}
+	switch os.Getenv("C10_PHASE") {
+	case "rounds":
+		phaseRounds(r, false)
+	case "portable":
+		phaseRounds(r, true)
+	case "resolver":
+		phaseResolver(r)
+	default:
+		parent(r)
+	}
+	r.Finish(rule)
+}
+
+func parent(r *vlib.Run) {
+	self, err := os.Executable()
+	if err != nil {
+		self = vlib.BinPath("c10", "race")
+	}
+	type child struct {
+		name, phase, bin string
+		env              []string
+	}
+	kids := []child{
+		{"rounds", "rounds", self, nil},
+		{"portable", "portable", self, nil},
+		{"resolver", "resolver", self, nil},
+	}
+	if !r.Quick() {
+		kids = append(kids, child{"asan", "rounds", vlib.BinPath("c10", "asan"), []string{"C10_ASAN=1"}})
+	}
+	timeout := time.Duration(r.N(170, 1700)) * time.Second
+	var wg sync.WaitGroup
+	var mu sync.Mutex
+	var prefixes []string
+	for _, k := range kids {
+		k := k
+		wg.Add(1)
+		go func() {
+			defer wg.Done()
+			pfx := r.RacePrefix(k.name)
+			mu.Lock()
+			prefixes = append(prefixes, pfx)
+			mu.Unlock()
+			env := append([]string{vlib.RaceEnv(pfx), "C10_PHASE=" + k.phase}, k.env...)
+			if k.name == "asan" {
+				if _, err := os.Stat(k.bin); err != nil {
+					r.Note("asan_child", "asan binary not built: "+err.Error())
+					return
+				}
+				env = append(env, "ASAN_OPTIONS=detect_leaks=0:halt_on_error=1")
+			}
+			res := r.Child(k.name, nil, k.bin, nil, env, timeout)
+			switch {
+			case res.TimedOut:
+				r.Inconclusive(fmt.Sprintf("child %s hit the %v watchdog (log %s)", k.name, timeout, res.Output))
+			case !res.HasState:
+				if k.name == "asan" && logHas(res.Output, "AddressSanitizer") {
+					r.Violation("asan/report", "the -asan build of the rounds phase was killed by an AddressSanitizer report (log "+res.Output+")", map[string]any{"kind": "asan", "log": res.Output})
+				} else {
+					r.Inconclusive(fmt.Sprintf("child %s ended without reporting (exit %d, log %s)", k.name, res.ExitCode, res.Output))
+				}
+			default:
+				r.Count("children_completed", 1)
+			}
+		}()
+	}
+	wg.Wait()
+	for _, p := range prefixes {
+		r.ScanRaceLogs(p)
+	}
+	r.Note("gomaxprocs_sweep", "per round, see round_* notes")
+
+	// ---- what the verdict depends on must have been observed
+	for _, tr := range []string{"udp", "tcp", "dot", "doh", "doq"} {
+		r.Require("matched_"+tr, int64(r.N(150, 3000)))
+	}
+	r.Require("answers_verified_udp", 2000)
+	r.Require("answers_verified_tcp", 300)
+	r.Require("answers_verified_dot", 150)
+	r.Require("answers_verified_doh", 100)
+	r.Require("answers_verified_doq", 80)
+	r.Require("cookies_verified", 300)
+	r.Require("engine_udp_inline_served", 200)  // cache hits served on the reader
+	r.Require("engine_udp_inline_handoff", 500) // inline → worker handoff
+	r.Require("engine_udp_overflow_served", 100)
+	r.Require("engine_udp_drop_ignored", 50)
+	r.Require("engine_udp_drop_malformed", 20)
+	r.Require("engine_udp_drop_trunc", 5)
+	r.Require("engine_udp_drop_full", 1) // shedding at the slab cap
+	r.Require("engine_tcp_drop_ignored", 20)
+	r.Require("engine_tcp_drop_conncap", 5)
+	r.Require("udp_replies_beyond_slab_cap", 500) // ⇒ slabs were reused
+	r.Require("stream_sessions_beyond_small_slabs", 10)
+	r.Require("shared_groups_observed", 20)
+	r.Require("shared_group_members_served_without_own_upstream_call", 40)
+	r.Require("matched_kind_panic", 50)
+	r.Require("matched_kind_hit", 1000)
+	r.Require("matched_kind_decoded", 100)
+	r.Require("matched_kind_large", 50)
+	r.Require("matched_kind_garbage", 30)
+	r.Require("matched_kind_notimp", 30)
+	r.Require("sent_kind_drop", 100)
+	r.Require("sent_kind_qr1", 100)
+	r.Require("sent_kind_denied", 20)
+	r.Require("stream_mode_halfclose", 3)
+	r.Require("stream_mode_slowreader", 3)
+	r.Require("portable_filter_installed", 1)
+	r.Require("portable_reader_udp_replies", 300)
+	r.Require("rounds_completed", int64(r.N(4, 20)))
+	r.Require("children_completed", int64(len(kids)))
+	r.Require("resolver_shared_lookups_observed", 5)
+	r.Require("resolver_replies_judged", 200)
+	r.Assume("the Go race detector (and, thorough tier, AddressSanitizer) are trusted")
+	r.Assume("a reply that is entirely the asking query's own (id, question, f(question)) but answers a packet the engines document as silently ignored is left to C06 (counted as silent_kind_answered_own), not judged as cross-talk")
+	r.Assume("loopback does not duplicate or corrupt datagrams")
+}
+
+func logHas(path, needle string) bool {
+	b, err := os.ReadFile(path)
+	return err == nil && strings.Contains(string(b), needle)
+}
+
+// phaseRounds runs the socket rounds of this process.
+func phaseRounds(r *vlib.Run, portable bool) {
+	asan := os.Getenv("C10_ASAN") != ""
+	ncpu := runtime.NumCPU()
+	var specs []*roundSpec
+	mk := func(i int, procs int, tight bool, w, q, conns int, scale float64) *roundSpec {
+		s := &roundSpec{Index: i, Procs: procs, Tight: tight, Workers: w, Queue: q, TCPConns: conns,
+			UDP: int(130 * scale), TCP: int(30 * scale), DoT: int(16 * scale), DoH: int(12 * scale), DoQ: int(10 * scale),
+			DeniedUDP: 4, DeniedTCP: 2, PerUDP: 44, PerStream: 44, PerMsg: 22, Groups: int(50 * scale), BurstMax: 16}
+		if tight {
+			s.BurstMax = 5
+		}
+		s.Name = fmt.Sprintf("r%d", i)
+		return s
+	}
+	switch {
+	case portable:
+		n := r.N(1, 3)
+		if n > 1 {
+			// the filter is irrevocable: one round per process; thorough runs
+			// more portable rounds as further children of this child
+			n = 1
+		}
+		s := mk(90, 4, true, 2, 2, 12, 1.0)
+		s.Name = "portable"
+		s.TCP, s.DoT, s.DoH, s.DoQ, s.DeniedTCP = 6, 4, 2, 2, 0
+		s.UDP = r.N(160, 400)
+		s.PortableAfter = s.UDP * s.PerUDP / 3
+		specs = append(specs, s)
+	case asan:
+		specs = append(specs, mk(70, 4, true, 2, 2, 12, 1.0), mk(71, ncpu, false, 4, 4, 24, 1.5))
+	default:
+		if r.Quick() {
+			specs = append(specs,
+				mk(1, 2, true, 2, 2, 12, 1.0),
+				mk(2, 6, true, 3, 2, 16, 1.0),
+				mk(3, ncpu, false, 4, 4, 24, 1.3))
+		} else {
+			procs := []int{2, 6, ncpu, 3, 12, 1}
+			for i := 0; i < 18; i++ {
+				p := procs[i%len(procs)]
+				tight := i%3 != 2
+				w, q := 2+i%3, 2+(i/3)%3
+				conns := 8 + 4*(i%5)
+				specs = append(specs, mk(10+i, p, tight, w, q, conns, 1.0+float64(i%4)*0.5))
+			}
+		}
+	}
+	for _, s := range specs {
+		runRound(r, s)
+		r.Progress("round %s done", s.Name)
+	}
+}
+
+// installSeccompRecvmmsgENOSYS makes recvmmsg(2) fail with ENOSYS for every
+// thread of this process from now on — the situation udp_batch_linux.go
+// documents ("a seccomp profile that filters recvmmsg") and answers by handing
+// each socket to the portable reader. sendmmsg keeps working.
 func installSeccompRecvmmsgENOSYS() error {
-	// BPF: ld [0] (nr); jeq SYS_RECVMMSG ? ret ERRNO|ENOSYS : ret ALLOW
 	const (
 		retAllow = 0x7fff0000
 		retErrno = 0x00050000
 	)
+	arch := uint32(0xc000003e) // AUDIT_ARCH_X86_64
+	if runtime.GOARCH == "arm64" {
+		arch = 0xc00000b7
+	}
 	filter := []unix.SockFilter{
-		{Code: 0x20, K: 4},                                   // ld arch
-		{Code: 0x15, Jt: 0, Jf: 3, K: 0xc000003e},            // jeq AUDIT_ARCH_X86_64 else allow
-		{Code: 0x20, K: 0},                                   // ld nr
-		{Code: 0x15, Jt: 0, Jf: 1, K: uint32(unix.SYS_RECVMMSG)}, // jeq recvmmsg
+		{Code: 0x20, K: 4},                       // ld  arch
+		{Code: 0x15, Jt: 0, Jf: 3, K: arch},      // jne arch → allow
+		{Code: 0x20, K: 0},                       // ld  nr
+		{Code: 0x15, Jt: 0, Jf: 1, K: uint32(unix.SYS_RECVMMSG)},
 		{Code: 0x06, K: retErrno | uint32(unix.ENOSYS)},
 		{Code: 0x06, K: retAllow},
 	}
 	prog := unix.SockFprog{Len: uint16(len(filter)), Filter: &filter[0]}
 	if err := unix.Prctl(unix.PR_SET_NO_NEW_PRIVS, 1, 0, 0, 0); err != nil {
-		return fmt.Errorf("no_new_privs: %w", err)
+		return fmt.Errorf("PR_SET_NO_NEW_PRIVS: %w", err)
 	}
-	const seccompSetModeFilter = 1
-	const flagTSYNC = 1
-	_, _, e := unix.Syscall(unix.SYS_SECCOMP, seccompSetModeFilter, flagTSYNC, uintptr(unsafe.Pointer(&prog)))
-	if e != 0 {
-		return fmt.Errorf("seccomp: %v", e)
+	const seccompSetModeFilter, flagTSYNC = 1, 1
+	if _, _, e := unix.Syscall(unix.SYS_SECCOMP, seccompSetModeFilter, flagTSYNC, uintptr(unsafe.Pointer(&prog))); e != 0 {
+		return fmt.Errorf("seccomp(SET_MODE_FILTER, TSYNC): %v", e)
 	}
 	return nil
 }
 
-func main() {
-	cfg := stack.DefaultConfig()
-	cfg.IngressWorkers = 2
-	cfg.IngressQueue = 2
-	cfg.IngressTCPConns = 8
-	old := debug.SetMemoryLimit(64 << 20)
-	st, err := stack.New(stack.Options{Config: cfg, Listen: stack.Listen{Plain: true, DoT: true, DoH: true, DoQ: true}})
-	debug.SetMemoryLimit(old)
-	if err != nil {
-		panic(err)
+// replay re-judges a recorded unit against the recorded endpoint state (a
+// schedule cannot be re-executed; the oracle's judgement can).
+func replay(r *vlib.Run, raw json.RawMessage) {
+	var head struct {
+		Kind string `json:"kind"`
 	}
-	defer st.Close()
-	fmt.Printf("%+v\n", server.VerifC10Stats(st.Server))
-	fmt.Println("procs", runtime.GOMAXPROCS(0), st.Addrs())
-	c := st.NewClient("127.9.9.9")
-	q := new(dns.Msg)
-	q.SetQuestion("a.example.", dns.TypeA)
-	pkt, _ := q.Pack()
-	for _, tr := range []string{"udp", "udp", "tcp", "dot", "doh-post", "doq"} {
-		out, err := c.Exchange(tr, pkt)
-		fmt.Println(tr, len(out), err)
-	}
-	before := st.Counters()
-	if len(os.Args) > 1 && os.Args[1] == "seccomp" {
-		fmt.Println("seccomp:", installSeccompRecvmmsgENOSYS())
-		for i := 0; i < 50; i++ {
-			out, err := c.Exchange("udp", pkt)
-			d := st.Counters()["udp_drop_error"] - before["udp_drop_error"]
-			fmt.Println("udp", len(out), err, "drop_error", d)
-			if d >= 8 {
-				break
+	_ = json.Unmarshal(raw, &head)
+	switch head.Kind {
+	case "unit":
+		var vc violationCase
+		if err := json.Unmarshal(raw, &vc); err != nil {
+			r.Fatalf("replay: %v", err)
+		}
+		ep := newEndpoint(r, vc.Round, vc.Endpoint, vc.Transport, vc.Src)
+		var fixed *query
+		kinds := map[string]qkind{}
+		for k := qkind(0); k < nKinds; k++ {
+			kinds[k.String()] = k
+		}
+		for _, sq := range vc.Sent {
+			q := &query{Kind: kinds[sq.KindS], KindS: sq.KindS, ID: sq.ID, Name: sq.Name, Qtype: sq.Qtype, Qclass: sq.Qclass,
+				Nonce: sq.Nonce, Cookie: sq.Cookie, Group: sq.Group}
+			if len(sq.PktHex) > 0 && !strings.HasSuffix(sq.PktHex, "…") {
+				q.pkt, _ = hex.DecodeString(sq.PktHex)
 			}
-			time.Sleep(10 * time.Millisecond)
+			if q.Nonce != "" {
+				registry.addNonce(q.Nonce, "replayed endpoint "+vc.Endpoint)
+			}
+			ep.mu.Lock()
+			for len(ep.sentQ) < sq.Seq {
+				ep.sentQ = append(ep.sentQ, &query{Kind: kDrop, KindS: "drop"})
+			}
+			ep.mu.Unlock()
+			ep.register(q)
+			q.answered.Store(int32(sq.Answered))
+			if vc.Matched != nil && sq.Seq == vc.Matched.Seq && (vc.Transport == "doh" || vc.Transport == "doq") {
+				fixed = q
+			}
 		}
-		for i := 0; i < 3; i++ {
-			out, err := c.Exchange("udp", pkt)
-			fmt.Println("udp after", len(out), err)
+		if vc.ForeignBy != "" {
+			// the foreign nonce's owner is not part of this endpoint: register
+			// every 24-hex run of the unit that the endpoint did not send
+			b, _ := hex.DecodeString(vc.RawHex)
+			registerUnknownNonces(ep, b, vc.ForeignBy)
+		}
+		ep.lastSeq = vc.LastSeq
+		b, _ := hex.DecodeString(vc.RawHex)
+		ep.judge(b, fixed)
+		ep.flush()
+	case "race", "asan":
+		r.Inconclusive("a race/asan report cannot be replayed; see the recorded log")
+	default:
+		r.Fatalf("replay: unknown case kind %q", head.Kind)
+	}
+}
+
+func registerUnknownNonces(ep *endpoint, raw []byte, who string) {
+	run := 0
+	for i := 0; i < len(raw); i++ {
+		if !isHex(raw[i]) {
+			run = 0
+			continue
+		}
+		run++
+		if run >= 24 {
+			w := strings.ToLower(string(raw[i-23 : i+1]))
+			if _, mine := ep.byNonce[w]; !mine {
+				registry.addNonce(w, who)
+			}
 		}
 	}
-	c.Close()
-	fmt.Printf("%+v\n", server.VerifC10Stats(st.Server))
-	fmt.Println(st.Counters())
 }
